@@ -1,5 +1,5 @@
 CONSTANTS
-  Family = "tmo"
+  Family = "hop"
   Defects = {}
   Big = FALSE
 SPECIFICATION Spec
